@@ -199,3 +199,43 @@ func VerifNextDSTMoreZones() {
 		vNextAroundTransition("Asia/Amman", time.Date(2016, 10, 27, 20, 0, 30, 0, time.UTC), "next_dst_more_zones_done") // 23:00 +03 on 10-27; change at 22:00 UTC
 	}
 }
+
+// The MONTH field at a change that removes midnight of the first of a month (America/Asuncion, 2017-10-01 00:00 -04 ->
+// 01:00 -03): start instants every hour from 20:30 on 09-30 to 03:30 on 10-01, month an arbitrary non-empty subset of
+// {September, October, November}, hour an arbitrary non-empty subset of {0, 1, 23} or unrestricted, minute and second
+// 0: strictly after the start, matching on the wall clock, no whole hour in between matches.
+//
+//verif:harness prop=C04 name=next_dst_first_of_month unwind=2000 solver=z3-new nonterm=violation replay_timeout=20
+func VerifNextDSTFirstOfMonth() {
+	zone := zzverif.RealZone("America/Asuncion")
+	base := time.Date(2017, 10, 1, 0, 30, 30, 0, time.UTC) // 20:30:30 -04 on 09-30; the change is at 04:00 UTC
+	start := base.Add(time.Duration(zzverif.Choose("hours_after_base", 8)) * time.Hour).In(zone)
+	months := zzverif.Uint64("month_set")
+	zzverif.Assume(months != 0)
+	zzverif.Assume(months&^(uint64(7)<<9) == 0)
+	hours := uint64(1)<<24 - 1
+	if zzverif.Bool("hours_restricted") {
+		hours = zzverif.Uint64("hour_set")
+		zzverif.Assume(hours != 0)
+		zzverif.Assume(hours&^(uint64(1)<<0|1<<1|1<<23) == 0)
+	}
+	all := func(lo, hi uint) uint64 { return getBits(lo, hi, 1) | starBit }
+	s := &SpecSchedule{Second: 1, Minute: 1, Hour: hours, Dom: all(1, 31), Month: months, Dow: all(0, 6), Location: zone}
+	got := s.Next(start)
+	matches := func(u time.Time) bool {
+		return u.Minute() == 0 && months&(uint64(1)<<uint(u.Month())) != 0 && hours&(uint64(1)<<uint(u.Hour())) != 0
+	}
+	zzverif.Assert(!got.IsZero(), "next_exists")
+	zzverif.Assert(got.After(start), "next_is_strictly_after_start")
+	zzverif.Assert(got.Second() == 0 && got.Nanosecond() == 0, "next_is_a_whole_minute")
+	zzverif.Assert(matches(got), "next_matches_the_fields_on_the_zone_wall_clock")
+	u := start.Truncate(time.Hour)
+	for i := 0; i < 1600; i++ {
+		u = u.Add(time.Hour)
+		if !u.Before(got) {
+			break
+		}
+		zzverif.Assert(!matches(u), "no_earlier_matching_instant")
+	}
+	zzverif.Cover("next_dst_first_of_month_done")
+}
